@@ -1,6 +1,5 @@
 from __future__ import annotations
 
-import re
 import sys
 from abc import ABCMeta, abstractmethod
 from collections.abc import Generator, Iterable, Mapping, MutableSequence
@@ -546,12 +545,7 @@ class SimpleFormula(
             if factor.eval_method is Factor.EvalMethod.LOOKUP:
                 return [Variable(factor.expr, roles=["value"])]
             aliases: dict[str, str] = {}
-            # Identifiers already used by the expression are not available as
-            # aliases (`x y` must not be aliased to a genuine `x_y`).
-            taken = dict.fromkeys(
-                re.findall(r"[^\W\d]\w*", re.sub(r"`[^`]*`", " ", factor.expr))
-            )
-            expr = sanitize_variable_names(factor.expr, taken, aliases)
+            expr = sanitize_variable_names(factor.expr, {}, aliases)
             return get_expression_variables(expr, {}, aliases)
 
         variables: list[Variable] = [
